@@ -48,6 +48,8 @@ def run(ctx):
         case_checks(ctx, cirq, c, qs, mode, checks)
         if mode != 'terminal' and i % 4 == 0:
             repetition_checks(ctx, cirq, c, qs, mode, checks)
+        if i % 5 == 2:
+            rekeyed_checks(ctx, cirq, c, qs, mode, checks, REKEY_ROUTES[(i // 5) % len(REKEY_ROUTES)])
     for i in range(70 * n):
         c, qs = mcircuits.clifford_deep(cirq, ctx.rng)
         case_checks(ctx, cirq, c, qs, 'clifford', checks)
@@ -57,6 +59,7 @@ def run(ctx):
         c, qs = mcircuits.pauli_measure_circuit(cirq, ctx.rng)
         case_checks(ctx, cirq, c, qs, 'pauli', checks)
     terminal_order_grid(ctx, cirq, checks)
+    rekeyed_stream(ctx, cirq, checks, 5 * n)
     noisy_terminal_checks(ctx, cirq, checks, 24 * n)
     sample_stream(ctx, cirq, 25 * n)
     evaluate(ctx, checks)
@@ -136,6 +139,114 @@ def case_checks(ctx, cirq, c, qs, mode, checks):
             what = f'{entry}: the probability-weighted mixture of the branch states differs from the reference ensemble on {desc}'
         checks.append((entry, expr, what, dict(signature=f'{entry}:{mode}:{features(cirq, c)}', entry=entry, circuit=repr(c), mode=mode)))
 
+
+
+def rekeyed_checks(ctx, cirq, c, qs, mode, checks, route):
+    """The same circuit after its measurement keys were renamed / prefixed / scoped through a public route (key-mapping and key-path
+    protocols, a CircuitOperation wrapper with repetition ids, a key map or a parent path) or its measured bits were flipped: the
+    recorded results, read under the new key names, must still have the distribution of the reference semantics of the ORIGINAL
+    circuit (everything a measurement gate carries - qid shape, invert mask, confusion map - survives the re-keying; a flipped bit
+    is flipped in the record and nothing else changes)."""
+    try:
+        mops, meas, _ = opsem.circuit_to_mops(cirq, c, qs)
+    except opsem.Unsupported:
+        return
+    names = sorted({k for k, _ in meas})
+    flip = None
+    if route == 'key_map':
+        ren = {k: k + '_r' for k in names}
+        c2 = cirq.with_measurement_key_mapping(c, ren)
+    elif route == 'key_map_swap' and len(names) >= 2:
+        ren = dict(zip(names, names[1:] + names[:1]))
+        c2 = cirq.with_measurement_key_mapping(c, ren)
+    elif route == 'path_prefix':
+        ren = {k: 'p:' + k for k in names}
+        c2 = cirq.with_key_path_prefix(c, ('p',))
+    elif route == 'subcircuit_ids':
+        ren = {k: 'r0:' + k for k in names}
+        c2 = cirq.Circuit(cirq.CircuitOperation(c.freeze(), repetitions=1, repetition_ids=['r0'], use_repetition_ids=True))
+    elif route == 'subcircuit_key_map':
+        ren = {k: 'z' + k for k in names}
+        c2 = cirq.Circuit(cirq.CircuitOperation(c.freeze(), measurement_key_map=ren))
+    elif route == 'subcircuit_parent_path':
+        ren = {k: 'pp:' + k for k in names}
+        c2 = cirq.Circuit(cirq.CircuitOperation(c.freeze()).with_key_path(('pp',)))
+    elif route == 'nested_ids':
+        ren = {k: 'o:i:' + k for k in names}
+        inner = cirq.CircuitOperation(c.freeze(), repetitions=1, repetition_ids=['i'], use_repetition_ids=True)
+        c2 = cirq.Circuit(cirq.CircuitOperation(cirq.FrozenCircuit(inner), repetitions=1, repetition_ids=['o'], use_repetition_ids=True))
+    elif route == 'bits_flipped':
+        if any(cirq.control_keys(op) for op in c.all_operations()):
+            return
+        ren = {k: k for k in names}
+        flip, pos, ops2 = [], 0, []
+        for op in c.all_operations():
+            if isinstance(op.gate, cirq.MeasurementGate):
+                b = ctx.rng.randrange(len(op.qubits))
+                if op.qubits[b].dimension == 2:
+                    op = op.gate.with_bits_flipped(b).on(*op.qubits)
+                    flip.append((str(op.gate.key), b))
+                else:
+                    flip.append(None)
+            ops2.append(op)
+        c2 = cirq.Circuit(ops2)        # one operation per moment keeps the order of the original
+        c2 = cirq.Circuit(cirq.Moment([o]) for o in ops2)
+    else:
+        return
+    meas2 = [(ren[k], n) for k, n in meas]
+    shape = gates.nlist([q.dimension for q in qs])
+    dim = int(np.prod([q.dimension for q in qs]))
+    model = f'(exec FOps {shape} {mops} {gates.fvec(np.eye(dim)[0])})'
+    desc = str(c).replace('\n', ' | ')[:400]
+    entry = ctx.rng.choice(['Simulator.run', 'Simulator.run', 'DensityMatrixSimulator.run'] + (['CliffordSimulator.run'] if mode == 'clifford' else []))
+    Sim = {'Simulator.run': cirq.Simulator, 'DensityMatrixSimulator.run': cirq.DensityMatrixSimulator, 'CliffordSimulator.run': cirq.CliffordSimulator}[entry]
+
+    def rec(s):
+        r = opsem.flat_record(Sim(seed=s).run(c2, repetitions=1).records, meas2)
+        if flip:
+            at, seen = 0, {}
+            for (k, n), f in zip(meas, flip):
+                if f is not None:
+                    r[at + f[1]] ^= 1
+                at += n
+        return r
+    try:
+        br = enumerate_runs(rec)
+    except BranchExplosion:
+        ctx.count(f'rekeyed:{route}:skipped-too-many-branches', [desc, route], False)
+        return
+    except Exception as e:
+        import traceback
+        ctx.violation(f'rekeyed:{route}:raises:{type(e).__name__}', f'{entry} of the circuit re-keyed by {route} raised {type(e).__name__}: {e} on {desc}',
+                      dict(kind='rekeyed', route=route, circuit=repr(c), error=traceback.format_exc()[-1200:]))
+        return
+    dist = aggregate([(p, r, None) for p, r, _ in br], meas2)
+    ctx.count(f'rekeyed:{route}', [desc, route, entry], len([1 for v in dist.values() if v > 1e-9]) >= 2,
+              sample=dict(circuit=desc, route=route, entry=entry, rekeyed=str(c2).replace('\n', ' | ')[:300]))
+    checks.append((f'rekeyed:{route}', f'dist_ok {TOL} {model} {dist_literal(dist)}',
+                   f'{entry} of the circuit re-keyed by {route}: the recorded results (read under the new keys) do not have the distribution of the original circuit {desc} (got {sorted(dist.items())})',
+                   dict(signature=f'rekeyed:{route}:{features(cirq, c)}', route=route, entry=entry, circuit=repr(c), mode=mode)))
+
+
+REKEY_ROUTES = ['key_map', 'key_map_swap', 'path_prefix', 'subcircuit_ids', 'subcircuit_key_map', 'subcircuit_parent_path', 'nested_ids', 'bits_flipped']
+
+
+def rekeyed_stream(ctx, cirq, checks, n):
+    """Every route for circuits that are guaranteed to carry a confusion map, an invert mask and (except bits_flipped) a classical control."""
+    rng = ctx.rng
+    for route in REKEY_ROUTES:
+        done = 0
+        for _ in range(400):
+            if done >= n:
+                break
+            mode = rng.choice(['mid', 'mid', 'terminal'])
+            c, qs = mcircuits.random_mcircuit(cirq, rng, wires=rng.randint(1, 3), qudits=rng.random() < 0.3, mid=(mode == 'mid'),
+                                              cc=(mode == 'mid' and route != 'bits_flipped'), max_ops=7, max_digits=3, resets=False)
+            f = features(cirq, c)
+            if 'confusion' not in str(f) or (route == 'key_map_swap' and len(cirq.measurement_key_names(c)) < 2):
+                continue
+            done += 1
+            rekeyed_checks(ctx, cirq, c, qs, mode, checks, route)
 
 def repetition_checks(ctx, cirq, c, qs, mode, checks):
     """Two repetitions of one run call: each repetition has the distribution of the reference semantics and the two are
